@@ -265,6 +265,32 @@ def run(ctx):
                                   f"`{x}` is moved into the root list but its parent pointer is not cleared in the same block: "
                                   f"a later decrease_key/remove cuts it from a node that is no longer its parent")
     ctx.floor("R16e", n_move, 1, "moves into the root list")
+    # every child of the extracted node becomes a root, however it is moved there (one _append_root per child, or a
+    # splice of the whole ring): each must lose its parent pointer, or a later decrease_key/remove cuts it "from" the
+    # extracted node - out of the root list - and the other roots are lost
+    ext_ = f_of("_extract_min")
+    flat_ = inline_stmt_calls(m, q, ext_.node, keep=("_cut",))
+    loopvars = set()
+    for l_ in ast.walk(flat_):
+        if isinstance(l_, (ast.For, ast.comprehension)):
+            loopvars |= {n_.id for n_ in ast.walk(l_.target) if isinstance(n_, ast.Name)}
+        elif isinstance(l_, ast.While):
+            loopvars |= {t_.id for s_ in ast.walk(l_) if isinstance(s_, ast.Assign) for t_ in s_.targets if isinstance(t_, ast.Name)}
+    touches_children = [n_ for n_ in ast.walk(flat_) if isinstance(n_, ast.Attribute) and n_.attr in ("child", "children")]
+    clears = [s_ for s_ in ast.walk(flat_) if isinstance(s_, ast.Assign) and isinstance(s_.value, ast.Constant) and s_.value.value is None
+              and any(isinstance(t_, ast.Attribute) and t_.attr == "parent" and isinstance(t_.value, ast.Name) and t_.value.id in loopvars
+                      for t_ in s_.targets)]
+    if not touches_children:
+        ctx.inconclusive("R16e", fl, "FibonacciHeap._extract_min", ext_.node, "extract: children to roots",
+                         "_extract_min does not mention the extracted node's children: how they reach the root list is not recognised")
+    elif clears:
+        ctx.proved("R16e", fl, "FibonacciHeap._extract_min", ext_.node, "extract: children to roots",
+                   "each child of the extracted node has its parent pointer cleared in a loop over the children")
+    else:
+        ctx.violation("R16e", fl, "FibonacciHeap._extract_min", touches_children[0], "extract: children to roots",
+                      "the children of the extracted node become roots but no loop over them clears `.parent`: they keep pointing at "
+                      "the extracted node, and a later decrease_key below that node's key cuts a root out of the root list "
+                      "(push 0,1,2; pop; pop; push 2; decrease_key(older 2, 0) loses every other root)")
     lk = f_of("_link")
     y, x = func_params(lk.node)[1:3]
     t = ast.unparse(lk.node).replace(" ", "")
